@@ -1,0 +1,39 @@
+//go:build verif
+
+package download
+
+// Receive-side access for the conformance harness of property C33 (robustness of the
+// decoding of download replies and of the download stream handlers). Add-only, tag verif.
+
+import (
+	"github.com/33cn/chain33/system/p2p/dht/protocol"
+	"github.com/33cn/chain33/types"
+	"github.com/libp2p/go-libp2p/core/peer"
+)
+
+// VerifRecv wraps a download Protocol that serves the two download stream protocols on
+// env.Host but is not registered in the global event-handler table.
+type VerifRecv struct {
+	p *Protocol
+}
+
+// VerifRecvNew builds the protocol as InitProtocol does, minus the event registration.
+func VerifRecvNew(env *protocol.P2PEnv) *VerifRecv {
+	p := &Protocol{P2PEnv: env, counter: NewCounter()}
+	protocol.RegisterStreamHandler(p.Host, downloadBlockOld, p.handleStreamDownloadBlockOld)
+	protocol.RegisterStreamHandler(p.Host, downloadBlock, p.handleStreamDownloadBlock)
+	return &VerifRecv{p: p}
+}
+
+// ProtocolIDs returns the stream protocol ids (old, new).
+func (v *VerifRecv) ProtocolIDs() (string, string) { return downloadBlockOld, downloadBlock }
+
+// FetchOld requests one block from pid with the protocol production uses and decodes the reply.
+func (v *VerifRecv) FetchOld(height int64, pid peer.ID) (*types.Block, error) {
+	return v.p.downloadBlockFromPeerOld(height, pid)
+}
+
+// Fetch is the same over the new protocol.
+func (v *VerifRecv) Fetch(height int64, pid peer.ID) (*types.Block, error) {
+	return v.p.downloadBlockFromPeer(height, pid)
+}
